@@ -132,17 +132,18 @@ var errNotFound = errors.New("no such record")
 
 // Store is the model storage. All methods are safe for concurrent use.
 type Store struct {
-	mu       sync.Mutex
-	sps      map[string]*serviceprovider.ServiceProvider // by entity id
-	spSpecs  map[string]SPSpec                           // by entity id
-	apps     map[string]string                           // app id -> entity id
-	users    map[string]UserSpec                         // by user id
-	byLogin  map[string]UserSpec
-	requests map[string]*AuthRequest
-	order    []string
-	nextID   int
-	live1    *LiveRequest // armed live record (see LiveRequest)
-	IDPrefix string
+	mu         sync.Mutex
+	sps        map[string]*serviceprovider.ServiceProvider // by entity id
+	spSpecs    map[string]SPSpec                           // by entity id
+	apps       map[string]string                           // app id -> entity id
+	users      map[string]UserSpec                         // by user id
+	byLogin    map[string]UserSpec
+	requests   map[string]*AuthRequest
+	order      []string
+	nextID     int
+	live1      *LiveRequest // armed live record (see LiveRequest)
+	pinnedKeys map[string]*KeyPair
+	IDPrefix   string
 
 	// live: the storage's own in-memory user records (users / byLogin stay pristine: they are the model the oracles read)
 	live        map[string]UserSpec
@@ -362,7 +363,17 @@ func (s *Store) Health(ctx context.Context) error {
 
 func (s *Store) keyResult(op, name string) (*key.CertificateAndKey, error) {
 	kind, c := s.enter(op)
-	k := Key(name)
+	k := s.pinnedKeys[name]
+	if k == nil {
+		k = Key(name)
+		if strings.Contains(name, "@") {
+			// a certificate minted relative to now: one storage hands out one and the same certificate for a name
+			if s.pinnedKeys == nil {
+				s.pinnedKeys = map[string]*KeyPair{}
+			}
+			s.pinnedKeys[name] = k
+		}
+	}
 	switch kind {
 	case "":
 		return &key.CertificateAndKey{Certificate: k.CertDER, Key: k.RSA}, nil
